@@ -83,3 +83,127 @@ Proof.
   destruct (length img mod bh =? 0); cbn [length]; lia.
 Qed.
 End Proofs.
+
+(* ---- exact positions: position (i, j) of block (bx, by) holds pixel (min(bx*bw + j, w - 1), y) of the surface, where y is
+   by*bh + i if that row exists and the FIRST row of the incomplete group otherwise *)
+Lemma nth_firstn_lt {X} (l : list X) n i d : i < n -> nth i (firstn n l) d = nth i l d.
+Proof. revert n i. induction l as [|a l IH]; intros n i H; destruct n, i; simpl; try lia; try reflexivity. apply IH. lia. Qed.
+Lemma nth_skipn_add {X} (l : list X) n i d : nth i (skipn n l) d = nth (n + i) l d.
+Proof. revert n. induction l as [|a l IH]; intros n; destruct n; simpl; try reflexivity; [destruct i; reflexivity|apply IH]. Qed.
+Lemma nth_repeat_in {X} (x : X) n i dd : i < n -> nth i (repeat x n) dd = x.
+Proof. revert i. induction n as [|n IH]; intros i H; [lia|]. destruct i; [reflexivity|]. cbn [repeat nth]. apply IH. lia. Qed.
+Lemma nth_flat_map_uniform {X Y} (f : X -> list Y) k (l : list X) a b d dx : (forall x, length (f x) = k) -> a < length l -> b < k ->
+  nth (a * k + b) (flat_map f l) d = nth b (f (nth a l dx)) d.
+Proof.
+  intros Hk. revert a. induction l as [|x l IH]; intros a Ha Hb; [simpl in Ha; lia|]. cbn [flat_map].
+  destruct a as [|a].
+  - cbn [Nat.mul Nat.add nth]. apply app_nth1. rewrite Hk. assumption.
+  - rewrite app_nth2 by (rewrite Hk; nia). rewrite Hk. replace (S a * k + b - k) with (a * k + b) by nia. cbn [nth]. apply IH; [simpl in Ha; lia|assumption].
+Qed.
+
+Section Positions.
+Variables (X : Type) (bw bh : nat) (d : X).
+Hypothesis Hbw : 1 <= bw.
+Hypothesis Hbh : 1 <= bh.
+Variables (w : nat) (img : list (list X)).
+Hypothesis Hw : 1 <= w.
+Hypothesis Hrows : Forall (fun r => length r = w) img.
+Notation h := (length img).
+Notation cw := ((w + bw - 1) / bw).
+Notation chh := ((length img + bh - 1) / bh).
+
+Lemma line_blocks_length buf : length (line_blocks X bw d w buf) = cw.
+Proof. unfold line_blocks. rewrite app_length, map_length, seq_length, cdiv_split by assumption. destruct (w mod bw =? 0); reflexivity. Qed.
+Lemma row_buffers_length : length (row_buffers X bh img) = chh.
+Proof. unfold row_buffers. rewrite app_length, map_length, seq_length, (cdiv_split h bh) by assumption. destruct (h mod bh =? 0); reflexivity. Qed.
+
+Definition src_row (by_ i : nat) : nat := if by_ * bh + i <? h then by_ * bh + i else by_ * bh.
+Definition src_col (bx j : nat) : nat := if bx * bw + j <? w then bx * bw + j else w - 1.
+
+Lemma buffer_row by_ i : by_ < chh -> i < bh -> nth i (nth by_ (row_buffers X bh img) []) [] = nth (src_row by_ i) img [].
+Proof.
+  intros Hby Hi. unfold row_buffers, src_row.
+  pose proof (Nat.div_mod h bh ltac:(lia)) as E. pose proof (Nat.mod_upper_bound h bh ltac:(lia)) as Hm.
+  rewrite (cdiv_split h bh) in Hby by assumption.
+  destruct (Nat.lt_ge_cases by_ (h / bh)) as [Hfull|Hpart].
+  - rewrite app_nth1 by (rewrite map_length, seq_length; assumption).
+    rewrite (nth_indep _ [] (group X bh 0 img)) by (rewrite map_length, seq_length; assumption).
+    rewrite (map_nth (fun k => group X bh k img)), seq_nth by assumption. cbn [Nat.add]. unfold group.
+    rewrite nth_firstn_lt, nth_skipn_add by assumption.
+    replace (by_ * bh + i <? h) with true by (symmetry; apply Nat.ltb_lt; nia). reflexivity.
+  - destruct (h mod bh =? 0) eqn:E0; [apply Nat.eqb_eq in E0; lia|]. apply Nat.eqb_neq in E0.
+    assert (by_ = h / bh) by lia. subst by_.
+    rewrite app_nth2 by (rewrite map_length, seq_length; lia). rewrite map_length, seq_length, Nat.sub_diag. cbn [nth].
+    set (part := skipn (h / bh * bh) img).
+    assert (Hpl : length part = h mod bh) by (unfold part; rewrite skipn_length; lia).
+    destruct (Nat.lt_ge_cases i (h mod bh)) as [Hin|Hout].
+    + rewrite app_nth1 by lia. unfold part. rewrite nth_skipn_add.
+      replace (h / bh * bh + i <? h) with true by (symmetry; apply Nat.ltb_lt; lia). reflexivity.
+    + rewrite app_nth2 by lia. rewrite nth_repeat_in by lia.
+      replace (h / bh * bh + i <? h) with false by (symmetry; apply Nat.ltb_ge; lia).
+      assert (Hhd : hd [] part = nth 0 part []) by (destruct part; reflexivity).
+      rewrite Hhd. unfold part. rewrite nth_skipn_add, Nat.add_0_r. reflexivity.
+Qed.
+
+Lemma buffer_length by_ : by_ < chh -> length (nth by_ (row_buffers X bh img) []) = bh.
+Proof.
+  intros Hby. unfold row_buffers.
+  pose proof (Nat.div_mod h bh ltac:(lia)) as E. pose proof (Nat.mod_upper_bound h bh ltac:(lia)) as Hm.
+  rewrite (cdiv_split h bh) in Hby by assumption.
+  destruct (Nat.lt_ge_cases by_ (h / bh)) as [Hfull|Hpart].
+  - rewrite app_nth1 by (rewrite map_length, seq_length; assumption).
+    rewrite (nth_indep _ [] (group X bh 0 img)) by (rewrite map_length, seq_length; assumption).
+    rewrite (map_nth (fun k => group X bh k img)), seq_nth by assumption. unfold group. rewrite firstn_length, skipn_length. nia.
+  - destruct (h mod bh =? 0) eqn:E0; [apply Nat.eqb_eq in E0; lia|]. apply Nat.eqb_neq in E0.
+    assert (by_ = h / bh) by lia. subst by_.
+    rewrite app_nth2 by (rewrite map_length, seq_length; lia). rewrite map_length, seq_length, Nat.sub_diag. cbn [nth].
+    rewrite app_length, repeat_length, skipn_length. lia.
+Qed.
+Lemma last_nth_pred (l : list X) : last l d = nth (length l - 1) l d.
+Proof.
+  induction l as [|a l IH]; [reflexivity|]. destruct l as [|b l]; [reflexivity|].
+  change (last (a :: b :: l) d) with (last (b :: l) d). rewrite IH. cbn [length Nat.sub]. rewrite Nat.sub_0_r. reflexivity.
+Qed.
+
+Theorem block_pixel by_ bx i j : by_ < chh -> bx < cw -> i < bh -> j < bw ->
+  nth j (nth i (nth (by_ * cw + bx) (image_blocks X bw bh d w img) []) []) d = nth (src_col bx j) (nth (src_row by_ i) img []) d.
+Proof.
+  intros Hby Hbx Hi Hj. unfold image_blocks.
+  rewrite (nth_flat_map_uniform (line_blocks X bw d w) cw _ by_ bx [] []); [|apply line_blocks_length|rewrite row_buffers_length; assumption|assumption].
+  set (buf := nth by_ (row_buffers X bh img) []).
+  assert (Hbl : length buf = bh) by (apply buffer_length; assumption).
+  assert (Hrow : nth i buf [] = nth (src_row by_ i) img []) by (apply buffer_row; assumption).
+  assert (Hsr : src_row by_ i < h).
+  { unfold src_row. pose proof (Nat.div_mod h bh ltac:(lia)) as E. rewrite (cdiv_split h bh) in Hby by assumption.
+    destruct (by_ * bh + i <? h) eqn:El; [apply Nat.ltb_lt in El; lia|]. apply Nat.ltb_ge in El.
+    destruct (h mod bh =? 0) eqn:E0; [apply Nat.eqb_eq in E0; nia|]. apply Nat.eqb_neq in E0. nia. }
+  assert (Hlen : length (nth (src_row by_ i) img []) = w).
+  { rewrite Forall_forall in Hrows. apply Hrows. apply nth_In. assumption. }
+  pose proof (Nat.div_mod w bw ltac:(lia)) as Ew. pose proof (Nat.mod_upper_bound w bw ltac:(lia)) as Hmw.
+  rewrite (cdiv_split w bw) in Hbx by assumption.
+  unfold line_blocks, src_col.
+  destruct (Nat.lt_ge_cases bx (w / bw)) as [Hfull|Hpart].
+  - rewrite app_nth1 by (rewrite map_length, seq_length; assumption).
+    rewrite (nth_indep _ [] (full_block X bw 0 buf)) by (rewrite map_length, seq_length; assumption).
+    rewrite (map_nth (fun bi => full_block X bw bi buf)), seq_nth by assumption. cbn [Nat.add]. unfold full_block.
+    rewrite (nth_indep _ [] ((fun row => firstn bw (skipn (bx * bw) row)) [])) by (rewrite map_length; lia).
+    rewrite (map_nth (fun row => firstn bw (skipn (bx * bw) row))). rewrite Hrow.
+    rewrite nth_firstn_lt, nth_skipn_add by assumption.
+    replace (bx * bw + j <? w) with true by (symmetry; apply Nat.ltb_lt; nia). reflexivity.
+  - destruct (w mod bw =? 0) eqn:E0; [apply Nat.eqb_eq in E0; lia|]. apply Nat.eqb_neq in E0.
+    assert (bx = w / bw) by lia. subst bx.
+    rewrite app_nth2 by (rewrite map_length, seq_length; lia). rewrite map_length, seq_length, Nat.sub_diag. cbn [nth].
+    unfold partial_block.
+    set (g := fun row : list X => let part := firstn (w - w / bw * bw) (skipn (w / bw * bw) row) in part ++ repeat (last part d) (bw - (w - w / bw * bw))).
+    rewrite (nth_indep _ [] (g [])) by (rewrite map_length; lia). rewrite (map_nth g). rewrite Hrow. unfold g. cbv zeta.
+    set (row := nth (src_row by_ i) img []) in *.
+    set (part := firstn (w - w / bw * bw) (skipn (w / bw * bw) row)).
+    assert (Hpl : length part = w - w / bw * bw) by (unfold part; rewrite firstn_length, skipn_length, Hlen; lia).
+    destruct (Nat.lt_ge_cases j (w - w / bw * bw)) as [Hin|Hout].
+    + rewrite app_nth1 by lia. unfold part. rewrite nth_firstn_lt, nth_skipn_add by assumption.
+      replace (w / bw * bw + j <? w) with true by (symmetry; apply Nat.ltb_lt; lia). reflexivity.
+    + rewrite app_nth2 by lia. rewrite nth_repeat_in by lia. rewrite last_nth_pred, Hpl. unfold part.
+      rewrite nth_firstn_lt, nth_skipn_add by lia.
+      replace (w / bw * bw + j <? w) with false by (symmetry; apply Nat.ltb_ge; lia). f_equal. lia.
+Qed.
+End Positions.
